@@ -1,5 +1,6 @@
 import Rtsp.Model.Codec.Mjpeg
 import Rtsp.Proofs.Codec.Common
+import Rtsp.Proofs.Codec.MiscSeries
 /-
 Property theorems for pkg/format/rtpmjpeg about the model in `Model/Codec/Mjpeg.lean`.
 
@@ -613,6 +614,85 @@ theorem c07_resync (h : List Pkt) (e : Enc) (j : Jpeg) (ps : List Pkt)
     (runDec (runDec {} h).1 ps).2 = List.replicate (ps.length - 1) .more ++ [.ok (rebuild j)] := by
   obtain ⟨d', hr, _, _⟩ := c03_roundtrip e j (runDec {} h).1 ps hc hf hps
   rw [hr]
+
+/-! ## series of images through one encoder / decoder pair -/
+
+/-- a series of `Encode` calls through the same encoder (`none` if an image is refused) -/
+def encodeMany (e : Enc) : List Jpeg → Option (Enc × List Pkt)
+  | [] => some (e, [])
+  | j :: js =>
+    match encode e j with
+    | (e1, some ps) => (encodeMany e1 js).map fun r => (r.1, ps ++ r.2)
+    | (_, none) => none
+
+theorem encode_cfg (e : Enc) (j : Jpeg) : (encode e j).1.cfg = e.cfg := by
+  unfold encode
+  split <;> rfl
+
+/-- **C06 numbering, any series of calls, any initial value (incl. wrap inside the run)** -/
+theorem c06_seq_many (e e' : Enc) (js : List Jpeg) (ps : List Pkt) (h : encodeMany e js = some (e', ps)) :
+    ps.map (·.seq) = seqFrom e.seq ps.length ∧ e'.seq = e.seq + UInt16.ofNat ps.length := by
+  induction js generalizing e ps with
+  | nil => simp [encodeMany] at h; obtain ⟨rfl, rfl⟩ := h; simp [seqFrom]
+  | cons j js ih =>
+    simp only [encodeMany] at h
+    cases he : encode e j with
+    | mk e1 r =>
+      cases r with
+      | none => simp [he] at h
+      | some qs =>
+        simp only [he] at h
+        cases hm : encodeMany e1 js with
+        | none => simp [hm] at h
+        | some x =>
+          obtain ⟨e2, rs⟩ := x
+          simp only [hm, Option.map_some, Option.some.injEq, Prod.mk.injEq] at h
+          obtain ⟨rfl, rfl⟩ := h
+          have hq : (encode e j).2 = some qs := by rw [he]
+          obtain ⟨h1, h2⟩ := c06_seq_consecutive e j qs hq
+          rw [he] at h2
+          obtain ⟨h3, h4⟩ := ih e1 rs hm
+          simp only [List.map_append, List.length_append]
+          refine ⟨?_, ?_⟩
+          · rw [seqFrom_append, h1, h3, h2]
+          · rw [h4, h2]
+            apply UInt16.toNat_inj.mp
+            simp [UInt16.toNat_add, UInt16.toNat_ofNat']
+            omega
+
+open Rtsp.Codec.Misc in
+/-- **C03, consecutive images**: any series of valid images through one encoder / decoder pair —
+from ANY decoder state — comes back as exactly the series of rebuilt images, with only "more
+packets needed" in between. -/
+theorem c03_roundtrip_many (e e' : Enc) (js : List Jpeg) (d : Dec) (ps : List Pkt)
+    (hc : ValidCfg e.cfg) (hf : ∀ j ∈ js, ValidFrame e.cfg j) (h : encodeMany e js = some (e', ps)) :
+    okFrames (runDec d ps).2 = js.map rebuild ∧ NoErr (runDec d ps).2 := by
+  induction js generalizing e d ps with
+  | nil =>
+    simp [encodeMany] at h; obtain ⟨rfl, rfl⟩ := h
+    exact ⟨rfl, by intro r hr; simp [runDec] at hr⟩
+  | cons j js ih =>
+    simp only [encodeMany] at h
+    cases he : encode e j with
+    | mk e1 r =>
+      cases r with
+      | none => simp [he] at h
+      | some qs =>
+        simp only [he] at h
+        cases hm : encodeMany e1 js with
+        | none => simp [hm] at h
+        | some x =>
+          obtain ⟨e2, rs⟩ := x
+          simp only [hm, Option.map_some, Option.some.injEq, Prod.mk.injEq] at h
+          obtain ⟨rfl, rfl⟩ := h
+          have hq : (encode e j).2 = some qs := by rw [he]
+          obtain ⟨d1, hr1, _, _⟩ := c03_roundtrip e j d qs hc (hf j (by simp)) hq
+          have hcfg : e1.cfg = e.cfg := by have := encode_cfg e j; rw [he] at this; exact this
+          obtain ⟨i1, i2⟩ := ih e1 d1 rs (by rw [hcfg]; exact hc)
+            (fun x hx => by rw [hcfg]; exact hf x (by simp [hx])) hm
+          rw [runDec_append, hr1]
+          refine ⟨?_, noErr_append _ _ (noErr_more _ _) i2⟩
+          rw [okFrames_append, okFrames_more, i1]; rfl
 
 /-! ## non-vacuity -/
 
